@@ -2,6 +2,7 @@
 package props
 
 import (
+	"math/rand"
 	"sort"
 	"time"
 
@@ -42,3 +43,5 @@ func timeouts(q, t time.Duration) func(string) time.Duration {
 }
 
 func sortStrings(s []string) { sort.Strings(s) }
+
+func newRand(seed int64) *rand.Rand { return rand.New(rand.NewSource(seed)) }
